@@ -444,7 +444,13 @@ def impl_hist(case):
         eg = objs[st['obj']]
         grid = _fl(st['grid'])
         levels = list(st['levels'])
-        if st.get('reuse_args_of') is not None and st['reuse_args_of'] in kept:
+        if st.get('mutate_args_of') is not None and st['mutate_args_of'] in kept:
+            # the caller owns its argument objects: the SAME list objects of an earlier request are edited in place (equal-size
+            # change, in-place refinement / coarsening) and handed over again
+            ga, la = kept[st['mutate_args_of']]
+            ga[:] = grid
+            la[:] = levels
+        elif st.get('reuse_args_of') is not None and st['reuse_args_of'] in kept:
             ga, la = kept[st['reuse_args_of']]
         else:
             ga, la = _mkargs(grid, levels, st['argtype'])
@@ -516,8 +522,17 @@ def gen_hist(rng, tier):
                 c = malform(rng, c)
         obs = [o for o in OBSERVERS if rng.random() < 0.4]
         argtype = steps[reuse]['argtype'] if reuse is not None else rng.choice(['list', 'list', 'tuple', 'npgrid'])
-        steps.append(dict(obj=rng.randrange(nobj), kind=c['kind'], grid=c['grid'], levels=c['levels'],
-                          argtype=argtype, obs=obs, reuse_args_of=reuse))
+        obj = rng.randrange(nobj)
+        mutate = None
+        # in-place edit of the argument lists of an earlier request to the same object (only lists can change their size)
+        cand = [j for j, st_ in enumerate(steps) if st_['argtype'] == 'list' and st_['obj'] == obj]
+        if reuse is None and cand and rng.random() < 0.45:
+            mutate = cand[-1]
+            argtype = 'list'
+            if c['grid'] == steps[mutate]['grid'] and c['levels'] == steps[mutate]['levels']:
+                mutate = None
+        steps.append(dict(obj=obj, kind=c['kind'], grid=c['grid'], levels=c['levels'],
+                          argtype=argtype, obs=obs, reuse_args_of=reuse, mutate_args_of=mutate))
     return dict(kind='hist', variants=variants, steps=steps)
 
 
@@ -547,10 +562,13 @@ def check_hist(chk, cases, impl=None):
             hist = dict(c, steps=c['steps'][:k + 1])       # the history up to the failing step replays alone
             mr = by[(i, k)]
             ir = r[k]['res']
-            sig = dict(variant_sig(v), step=k, argtype=st['argtype'], reused_args=st.get('reuse_args_of') is not None)
+            sig = dict(variant_sig(v), step=k, argtype=st['argtype'], reused_args=st.get('reuse_args_of') is not None, edited_in_place=st.get('mutate_args_of') is not None)
             for ob in st['obs']:
                 chk.count('hist:observer=' + ob)
-            chk.count('hist:argtype=' + st['argtype'] + (',same-objects-again' if st.get('reuse_args_of') is not None else ''))
+            chk.count('hist:argtype=' + st['argtype'] + (',same-objects-again' if st.get('reuse_args_of') is not None else '')
+                      + (',same-objects-edited-in-place(%s)' % ('equal-size' if len(st['grid']) == len(c['steps'][st['mutate_args_of']]['grid'])
+                                                               else ('refined' if len(st['grid']) > len(c['steps'][st['mutate_args_of']]['grid']) else 'coarsened'))
+                         if st.get('mutate_args_of') is not None else ''))
             chk.count('hist:step-kind=' + st['kind'])
             if not r[k]['args_unchanged']:
                 chk.violation('oracle:argument_immutable', 'argument-mutated', dict(sig), hist,
@@ -578,7 +596,7 @@ def check_hist(chk, cases, impl=None):
             o = ir[1]
             mgrid = [sx.q(x) for x in mr[0]]
             mw = [sx.q(x) for x in mr[3]]
-            sig = dict(variant_sig(v, o['sizes']), step=k, argtype=st['argtype'], reused_args=st.get('reuse_args_of') is not None)
+            sig = dict(variant_sig(v, o['sizes']), step=k, argtype=st['argtype'], reused_args=st.get('reuse_args_of') is not None, edited_in_place=st.get('mutate_args_of') is not None)
             tol = tol_of(o['grid'])
             valid = st['kind'] in ('valid', 'complete')
             consistent = sig['container'] == 'ROMBERG_DEFAULT' or not sig['multi_slice_container']
@@ -633,7 +651,8 @@ def check_hist(chk, cases, impl=None):
                                     steps=[dict(obj=st['obj'], points=len(st['grid']), kind=st['kind'], argtype=st['argtype'], observers=st['obs'],
                                                 same_argument_objects_as_step=st.get('reuse_args_of')) for st in c['steps']]))
     chk.record_cases(len(mcases), keys, 'histories on ONE ExtrapolationGrid object (or two interleaved ones): 2-4 set_grid requests with different '
-                     'trees / the mirrored tree of equal size / the same tree on another interval / the same argument objects again / malformed '
+                     'trees / the mirrored tree of equal size / the same tree on another interval / the same argument objects again / the same list '
+                     'objects EDITED IN PLACE by the caller (equal-size change, in-place refinement, in-place coarsening) / malformed '
                      'requests, lists / tuples / numpy grid arrays, public observer calls between the requests (get_weights twice, integrate, '
                      'getters, container getters, overwriting the returned weight list); every step compared with the model (containers '
                      'with their attributes included) and the oracle, arguments checked for immutability; non-trivial = whole history agreed',
@@ -1465,6 +1484,21 @@ HIST_CORPUS = [
         dict(obj=0, kind='complete', grid=[[k, 8] for k in range(9)], levels=[0, 3, 2, 3, 1, 3, 2, 3, 0], argtype='list', obs=['integrate'],
              reuse_args_of=None)]),
 ]
+
+HIST_CORPUS.append(dict(kind='hist', variants=[[1, 1, 1, 0]], steps=[
+    dict(obj=0, kind='valid', grid=[[0, 1], [1, 2], [5, 8], [3, 4], [1, 1]], levels=[0, 1, 3, 2, 0], argtype='list', obs=['integrate'],
+         reuse_args_of=None, mutate_args_of=None),
+    dict(obj=0, kind='valid', grid=[[0, 1], [1, 4], [3, 8], [1, 2], [1, 1]], levels=[0, 2, 3, 1, 0], argtype='list', obs=['integrate'],
+         reuse_args_of=None, mutate_args_of=0),
+    dict(obj=0, kind='valid', grid=[[0, 1], [1, 8], [1, 4], [3, 8], [1, 2], [3, 4], [1, 1]], levels=[0, 3, 2, 3, 1, 2, 0], argtype='list',
+         obs=['integrate', 'weights_twice'], reuse_args_of=None, mutate_args_of=1),
+    dict(obj=0, kind='valid', grid=[[0, 1], [1, 2], [1, 1]], levels=[0, 1, 0], argtype='list', obs=['integrate'],
+         reuse_args_of=None, mutate_args_of=2)]))
+HIST_CORPUS.append(dict(kind='hist', variants=[[3, 2, 4, 0]], steps=[
+    dict(obj=0, kind='valid', grid=[[2, 1], [5, 2], [3, 1], [7, 2], [4, 1]], levels=[0, 2, 1, 2, 0], argtype='list', obs=[],
+         reuse_args_of=None, mutate_args_of=None),
+    dict(obj=0, kind='valid', grid=[[2, 1], [5, 2], [3, 1], [13, 4], [7, 2], [4, 1]], levels=[0, 2, 1, 3, 2, 0], argtype='list', obs=['getters'],
+         reuse_args_of=None, mutate_args_of=0)]))
 
 # exemplar of the known finding C11-wrapper-cache-aliases-result
 ALIAS_EXEMPLAR = dict(kind='valid', grid=[[0, 1], [1, 2], [1, 1]], levels=[0, 1, 0], wrapper='romberg', do_cache=True, variant=[1, 1, 1])
